@@ -93,7 +93,7 @@ class Registry:
         return self.overrides.get(qualname, _MISSING)
 
     def call_hook(self, E, qualname, st):
-        if qualname in self.opaque_now:
+        if qualname in self.opaque_now or (qualname.startswith('spec.') and _always_uf(qualname)):
             return lambda E, st, args, kwargs, q=qualname: apply_opaque(E, q, st, args, kwargs)
         if qualname in self.force_inline:
             return None
@@ -764,28 +764,53 @@ def _sort_of(v):
         return 'bytes'
     if v is None:
         return 'none'
+    if isinstance(v, str):
+        return 'str:' + re.sub(r'[^A-Za-z0-9]', '', v)       # string constants select a symbol family member
     raise Unsupported('argument %r of an opaque spec function' % (v,))
 
 
+_SIG_CACHE = {}
+
+
+def _spec_sig(qualname):
+    """SIG entry of a spec function: 'bool' | 'int' | 'int[nat]' | 'bytes' | {'sort': ..., 'uf': True, 'facts': [clauses over params + result]}"""
+    if qualname not in _SIG_CACHE:
+        modname, fname = qualname.rsplit('.', 1)
+        m = loader.load_module(modname)
+        sig = None
+        d = m.defs.get('SIG') if m else None
+        if d and d[0] == 'assign':
+            sig = ast.literal_eval(d[1]).get(fname)
+        _SIG_CACHE[qualname] = sig
+    return _SIG_CACHE[qualname]
+
+
+def _always_uf(qualname):
+    try:
+        sig = _spec_sig(qualname)
+    except Exception:      # noqa
+        return False
+    return isinstance(sig, dict) and bool(sig.get('uf'))
+
+
 def apply_opaque(E, qualname, st, args, kwargs):
-    """an opaque spec function is an uninterpreted symbol: only congruence is known about it here; its
-    definition is revealed in the proof of the function whose contract introduces it"""
+    """an opaque spec function is an uninterpreted symbol: only congruence (and its declared `facts`) is known about it
+    here; its definition is revealed in the proof of the function whose contract introduces it"""
     if kwargs:
         raise Unsupported('keyword arguments to opaque spec function')
-    modname, fname = qualname.rsplit('.', 1)
-    m = loader.load_module(modname)
-    sig = None
-    d = m.defs.get('SIG') if m else None
-    if d and d[0] == 'assign':
-        sig = ast.literal_eval(d[1]).get(fname)
+    sig = _spec_sig(qualname)
+    facts = []
+    if isinstance(sig, dict):
+        facts = sig.get('facts', [])
+        sig = sig['sort']
     if sig is None:
         raise Unsupported('opaque spec function %s has no result sort in SIG' % qualname)
     kinds = tuple(_sort_of(a) for a in args)
     zs = {'bool': z3.BoolSort(), 'int': INT, 'bytes': BYTES}
     key = (qualname, kinds, sig)
     if key not in _UF_CACHE:
-        dom = [zs[k] for k in kinds if k != 'none']
-        nm = qualname.replace('spec.', '') + ''.join('_N' if k == 'none' else '' for k in kinds)
+        dom = [zs[k] for k in kinds if k not in ('none',) and not k.startswith('str:')]
+        nm = qualname.replace('spec.', '') + ''.join(('_N' if k == 'none' else '_' + k[4:] if k.startswith('str:') else '') for k in kinds)
         _UF_CACHE[key] = z3.Function(nm, *(dom + [zs[sig.split('[')[0]]]))
     f = _UF_CACHE[key]
     zargs = []
@@ -796,14 +821,34 @@ def apply_opaque(E, qualname, st, args, kwargs):
             zargs.append(zint(a))
         elif k == 'bytes':
             zargs.append(zbytes(a))
-    t = f(*zargs)
+    t = f(*zargs) if zargs else f()
     if sig == 'bool':
-        return [('val', st, mk_bool(t))]
-    if sig.startswith('int'):
+        rv = mk_bool(t)
+    elif sig.startswith('int'):
         if sig == 'int[nat]':
             st.fact(t >= 0)
-        return [('val', st, mk_int(t))]
-    return [('val', st, mk_bytes(t))]
+        rv = mk_int(t)
+    else:
+        rv = mk_bytes(t)
+    if facts:
+        fi = loader.find_function(qualname)
+        names = [x.arg for x in fi.node.args.args]
+        env = dict(zip(names, args))
+        env['result'] = rv
+        s0 = st.fork()
+        fr = Frame(env, fi.module)
+        fr.spec_mode = True
+        s0.frames.append(fr)
+        guard = st.ghost.get('_uf_fact_depth', 0)
+        if guard < 3:
+            s0.ghost['_uf_fact_depth'] = guard + 1
+            for cl in facts:
+                g = eval_clause(E, cl, s0)
+                for t2 in s0.pc[len(st.pc):]:
+                    if t2.get_id() in s0.facts:
+                        st.fact(t2)
+                st.fact(_as_z3(g))
+    return [('val', st, rv)]
 
 
 def _eval_path_base(E, st, path):
